@@ -262,7 +262,7 @@ Definition pm_tree (m : pmig) (t : e3) : option e3 :=
   | PAsIs => Some t
   | PDecremented =>
       match atoi (print3 t) with
-      | Some z => canon (itoa (int64_pred z))
+      | Some z => if decremented_keeps_negative && (z <? 0)%Z then Some t else canon (itoa (int64_pred z))
       | None => Some (X3Bin OSub (wrap t 4) num_1)
       end
   | PBySpaces => canon (param_by_spaces (print3 t))
@@ -273,7 +273,9 @@ Proof.
   intros G H. destruct m; cbn [pm_tree apply_pm] in *.
   - inversion H; subst. split; [reflexivity|assumption].
   - unfold param_decremented. destruct (atoi (print3 t)) as [z|].
-    + apply canon_spec in H. exact H.
+    + destruct (decremented_keeps_negative && (z <? 0)%Z).
+      * inversion H; subst t'. split; [reflexivity|assumption].
+      * apply canon_spec in H. exact H.
     + inversion H; subst t'. change prec_addition with 4%nat. rewrite as_operand_print by assumption. split.
       * cbn [print3 num_1 op_text]. unfold t_minus_one. norm_app. reflexivity.
       * apply good_bin; [apply good_wrap; assumption | split; reflexivity | apply (wrap_lvl t 4); lia | cbn; lia].
